@@ -52,11 +52,11 @@ def _parse_date(date_string):
     for handler in _date_handlers:
         try:
             date9tuple = handler(date_string)
-        except (KeyError, OverflowError, ValueError, AttributeError):
-            continue
-        if not date9tuple:
-            continue
-        if len(date9tuple) != 9:
+            if not date9tuple:
+                continue
+            if len(date9tuple) != 9:
+                continue
+        except Exception:
             continue
         return date9tuple
     return None
